@@ -226,6 +226,14 @@ def run_model_and_steps(chk, prop, tier, pkey=None):
             if not res.ok:
                 chk.error("YkConc4 model check %s did not pass (says nothing about the code): %s" % (cfg, tlc_tail(res, 12)))
         run_steps4(chk, prop, tier, pk, progs=STEP4_SCAN[:2] if tier == "quick" else STEP4_SCAN)
+        # scans THROUGH A NEXT-LAYER LINK (YkConc8 = YkConc5 + scan / scan_border with the link branch): the layer vanishes, is created, its root
+        # is replaced under the scanner; every failure of the nested scan sends layer 0 back to its border with what it pushed cleaned up
+        for cfg in (["a", "d"] if tier == "quick" else ["a", "b", "c", "d", "e", "f"]):
+            res = tlc("MC_Conc8", "MC_Conc8_%s.cfg" % cfg, workers=12, timeout=1500)
+            chk.add_tlc(res, "YkConc8 config %s: full scan through a next-layer link vs layer removal / creation / slot reuse (ScanOK, NvOK, LinOK, DescentOK, Quiescent, Termination under WF)" % cfg)
+            if not res.ok:
+                chk.error("YkConc8 model check %s did not pass (says nothing about the code): %s" % (cfg, tlc_tail(res, 12)))
+        run_steps8(chk, prop, tier, pk)
     exe = build("stepdrv", ["stepdrv.cpp"], sessions=16)
     init = {"A": "{1, 2}", "B": "{1, 2}", "C": "{1, 2}", "D": "{1}"}
     nruns = 40 if tier == "quick" else 400
@@ -474,6 +482,58 @@ def run_steps5(chk, prop, tier, pk):
             at = int(m.group(1)) if m else 0
             chk.cov["divergences"] = chk.cov.get("divergences", 0) + 1
             log("DIVERGENCE property=%s at=step-level layers %s event %d: %s (the code's access sequence differs from YkConc5; not a violation)" % (
+                prop, prog, at, lines[at - 1][:200] if 0 < at <= len(lines) else ""))
+
+
+STEP8 = [("scan:0,rem:101,put:102", "1,100", "101"), ("scan:0,rem:101,put:101", "1,100", "101"), ("scan:0,put:102,rem:1", "1,100", "101"), ("scan:0,rem:101,put:2", "1,100", "101"),
+         ("scan:0,scan:0,put:102", "1,100", ""), ("scan:0,put:2,put:100", "1,100", "101")]
+
+
+def run_steps8(chk, prop, tier, pk):
+    """S: full scans through a next-layer link (YkConc8) on the real code (fan-out 15) under random and PCT schedules; every logged access
+    must be the enabled model step with the same value (TraceConc8); ScanOK, NvOK, LinOK, DescentOK and Quiescent are evaluated on every
+    state of the accepted executions."""
+    import os, re
+    from common import tlc, tlc_tail, build, run, BUILD
+    from tracecheck import write_cfg
+    exe = build("stepdrv5", ["stepdrv5.cpp"], sessions=16)
+    nruns = 20 if tier == "quick" else 150
+    for pi, (prog, i0, i1) in enumerate(STEP8[:3] if tier == "quick" else STEP8):
+        out = ""
+        bad = False
+        for sched in ("random", "pct"):
+            rc, o, err = run([exe, "prog=" + prog, "init0=" + i0, "init1=" + i1, "runs=%d" % nruns, "seed=%d" % seed(), "sched=" + sched], timeout=300)
+            lines = o.splitlines()
+            if lines and '"op":"fault"' in lines[-1]:
+                chk.violation("fault", "implementation faulted in step-level layer-scan run %s: %s" % (prog, lines[-1]), chk.save_replay("fault_step8_%d.ndjson" % pi, "\n".join(lines[-30:])))
+                bad = True
+                break
+            if rc != 0 or any('"e":"abort"' in x for x in lines[-2:]):
+                chk.error("stepdrv5 (scan) %s did not complete: %s" % (prog, (lines[-1] if lines else err)[:200]))
+                bad = True
+                break
+            out += o if not out else "\n".join(lines[1:]) + "\n"
+        if bad:
+            continue
+        lines = out.splitlines()
+        tr = os.path.join(BUILD, "traces", "step8_%s_%d.ndjson" % (pk, pi))
+        open(tr, "w").write(out)
+        cfg = write_cfg(os.path.join(BUILD, "cfg", "tc8_%s_%d.cfg" % (pk, pi)), constants={"F": 15, "Keys": "{1, 2, 100, 101, 102}", "Threads": "{0, 1, 2}", "Prog": "<- ProgT",
+                        "Init0": "{1}", "Init1": "{}", "NO_CHILD_ROOT_CLEAR": "FALSE", "NO_DESCENT_RECHECK": "FALSE", "SCAN_NO_CLEANUP": "FALSE"},
+                        invariants=["LinOK", "ScanOK", "NvOK", "DescentOK", "B0NonEmpty", "Quiescent"], constraint="Record")
+        res = tlc("TraceConc8", cfg, env={"TRACE": tr}, workers=1, timeout=600, deque=True)
+        chk.add_tlc(res, "step-level conformance of scans through a next-layer link, programs %s on B0={%s} layer={%s} (%d runs, %d events)" % (prog, i0, i1, 2 * nruns, len(lines)))
+        if res.ok:
+            chk.traces += 2 * nruns
+            chk.cov["step_events_conforming"] = chk.cov.get("step_events_conforming", 0) + len(lines)
+        elif res.violated in ("LinOK", "ScanOK", "NvOK", "DescentOK", "Quiescent"):
+            rp = chk.save_replay("step8_%d_%s.txt" % (pi, res.violated), tlc_tail(res, 60))
+            chk.violation("step-trace-" + res.violated, "%s violated on a real execution (%s) followed step by step in YkConc8" % (res.violated, prog), rp)
+        else:
+            m = re.search(r'<<"STUCK", (\d+)', res.out)
+            at = int(m.group(1)) if m else 0
+            chk.cov["divergences"] = chk.cov.get("divergences", 0) + 1
+            log("DIVERGENCE property=%s at=step-level layer scan %s event %d: %s (the code's access sequence differs from YkConc8; not a violation)" % (
                 prop, prog, at, lines[at - 1][:200] if 0 < at <= len(lines) else ""))
 
 
